@@ -18,7 +18,8 @@ RULE = ('random mixtures of 1..8 substances (random formula trees rendered to te
         'log-uniform over 6 decades, as Material in Norm.NUMBER_FRACTION / Norm.MASS_FRACTION given as dict or as '
         '"<f> <formula>" string, and Substances (counts) given as formula or dict, natural and most-abundant isotopes; every '
         'case is also rebuilt with all proportions times a common k in [1e-6,1e6] and (materials) through the number<->mass '
-        'duality.  non-trivial = >=2 components with pairwise different amounts*masses; distinct by (kind, norm, '
+        'duality; composites produced by Material+Material, Substance+Substance, k*Material and .add() (operands sharing '
+        'components) are checked with the accumulated amounts.  non-trivial = >=2 components with pairwise different amounts*masses; distinct by (kind, norm, '
         'isotope mode, component texts, amounts, k)')
 SHARDS = {'quick': 16, 'thorough': 16}
 MIN_NONTRIVIAL = {'quick': 250, 'thorough': 8000}
@@ -26,7 +27,8 @@ TIME_CAP = {'quick': 45, 'thorough': 780}
 REQUIRED_CLASSES = ['material-number-fraction', 'material-mass-fraction', 'substance-counts', 'dict-form', 'string-form',
                     'natural', 'most-abundant', 'single-component', 'components>=5', 'proportion-span>=1e4',
                     'scaling-k<1', 'scaling-k>1', 'duality-number-to-mass', 'duality-mass-to-number',
-                    'repeated-substance-in-string']
+                    'repeated-substance-in-string', 'composite-from-addition', 'composite-from-add-method',
+                    'composite-from-number-times-material', 'shared-component-accumulated']
 REQUIRED_MONITORS = ['fraction_rows_checked', 'sum_rows_checked', 'scaling_twins_compared', 'duality_twins_compared',
                      'table_hygiene_checks']
 ASSUMPTIONS = ['component masses m_i are taken from data_components() (their correctness is C10)',
@@ -99,6 +101,9 @@ def cases(rng, tier, shard, nshards, ctx):
         natural = rng.random() < 0.5
         k = 10 ** rng.uniform(-6, 6)
         k = float('%.6g' % k)
+        if rng.random() < 0.18:
+            yield gen_arith(rng, T, natural, k)
+            continue
         if rng.random() < 0.2:
             yield dict(t='substance', natural=natural, k=k, form=rng.choice(['string', 'dict']),
                        f=R.gen_formula(rng, T, dict(maxdepth=2, maxitems=5, avoid_known=True)))
@@ -118,6 +123,32 @@ def cases(rng, tier, shard, nshards, ctx):
             comps.append([comps[0][0], amount_text(rng)])          # the same substance twice: amounts add up
         yield dict(t='material', norm=rng.choice(['number', 'mass']), natural=natural, form=form, comps=comps, k=k,
                    tight=rng.random() < 0.2)
+
+
+def gen_arith(rng, T, natural, k):
+    """composites that are the *result* of an operation; the operands share at least one component"""
+    if rng.random() < 0.35:
+        opts = dict(maxdepth=1, maxitems=3, avoid_known=True)
+        f = R.gen_formula(rng, T, opts)
+        g = R.gen_formula(rng, T, opts)
+        shared = R.all_species(f)[0]
+        extra = dict(shared); extra['n'] = R.gen_count(rng); extra['cf'] = 'n' if extra['n'] == 1 else 'i'
+        g = R.fm([extra] + g['items'], [''] + g['seps']) if g['items'] else R.fm([extra])
+        R._avoid_known(g)
+        return dict(t='arith', kind='substance', op=rng.choice(['add', 'add', 'addmethod']), natural=natural, f=f, g=g,
+                    el=R.gen_species(rng, T), n=R.gen_count(rng))
+    opts = dict(maxdepth=1, maxitems=3, pgroup=0.25, avoid_known=True)
+    pool, seen = [], set()
+    while len(pool) < rng.choice([2, 3, 4, 5]):
+        f = R.gen_formula(rng, T, opts)
+        if R.render(f) not in seen:
+            seen.add(R.render(f))
+            pool.append(f)
+    na = rng.randint(1, len(pool))
+    a = [[f, amount_text(rng)] for f in pool[:na]]
+    b = [[f, amount_text(rng)] for f in pool[rng.randint(0, na - 1):]]
+    return dict(t='arith', kind='material', op=rng.choice(['add', 'add', 'rmul', 'addmethod']), norm=rng.choice(['number', 'mass']),
+                natural=natural, a=a, b=b, k=k)
 
 
 # ------------------------------------------------------------------------------------ oracle
@@ -216,6 +247,9 @@ def run_case(case, ctx):
     classes = {'natural' if natural else 'most-abundant', 'scaling-k<1' if k < 1 else 'scaling-k>1'}
     if case['t'] == 'substance':
         return _finish(ctx, run_substance(case, ctx, classes, mon, devs))
+    if case['t'] == 'arith':
+        classes = {'natural' if natural else 'most-abundant'}
+        return _finish(ctx, run_arith(case, ctx, classes, mon, devs))
     norm = case['norm']
     NORM = M.Norm.NUMBER_FRACTION if norm == 'number' else M.Norm.MASS_FRACTION
     classes.add('material-number-fraction' if norm == 'number' else 'material-mass-fraction')
@@ -310,6 +344,8 @@ def run_substance(case, ctx, classes, mon, devs):
     order, amt, mass, x, X, srow = obsA
     sample.update(masses=mass, observed_x=x, observed_X=X, sum_row=srow)
     if ok:
+        ex, eX = expected_fractions([given[t] for t in given], [mass[t] for t in given], 'number')
+        sample.update(expected_x=dict(zip(given, ex)), expected_X=dict(zip(given, eX)))
         B = A * k
         obsB = read_composite(B, 'count')
         mon['scaling_twins_compared'] += 1
@@ -322,6 +358,95 @@ def run_substance(case, ctx, classes, mon, devs):
     if devs:
         sample['deviations'] = [d['mech'] for d in devs]
     return outcome(classes=sorted(classes), nontrivial=nontrivial, fp=fp, dev=devs, monitors=mon, sample=sample)
+
+
+def run_arith(case, ctx, classes, mon, devs):
+    """x and X of composites that come out of +, k* and .add(): amounts accumulate, the fractions must follow"""
+    M, T = ctx['M'], ctx['T']
+    natural, op = case['natural'], case['op']
+    if case['kind'] == 'substance':
+        classes.add('substance-counts')
+        ca, ia = R.expand(case['f'])
+        cb, ib = R.expand(case['g'])
+        ids = dict(ia); ids.update(ib)
+        et = R.species_text(case['el'])
+        if op == 'addmethod':
+            ids[et] = R.species_ident(case['el'])
+        if any(R.ident_data(T, i, natural) is None for i in ids.values()):
+            return outcome(skip='species-without-defined-data')
+        ta, tb = R.render(case['f']), R.render(case['g'])
+        try:
+            A, B = M.Substance(ta, natural=natural), M.Substance(tb, natural=natural)
+        except Exception:
+            return outcome(skip='component formula rejected (C10 domain)')
+        given = {t: float(c) for t, c in ca.items()}
+        if op == 'add':
+            classes.add('composite-from-addition')
+            C = A + B
+            for t, c in cb.items():
+                given[t] = given.get(t, 0.0) + c
+            shown = '%s + %s' % (ta, tb)
+        else:
+            classes.add('composite-from-add-method')
+            first = list(ca)[0]
+            A.add(et, case['n'])
+            A.add(first, case['n'])
+            C = A
+            given[et] = given.get(et, 0.0) + case['n']
+            given[first] = given.get(first, 0.0) + case['n']
+            shown = 'Substance(%r).add(%r,%d).add(%r,%d)' % (ta, et, case['n'], first, case['n'])
+        classes.add('shared-component-accumulated')
+        col, norm, tag = 'count', 'number', 'substance-result:'
+    else:
+        norm = case['norm']
+        NORM = M.Norm.NUMBER_FRACTION if norm == 'number' else M.Norm.MASS_FRACTION
+        classes.add('material-number-fraction' if norm == 'number' else 'material-mass-fraction')
+        for f, _ in case['a'] + case['b']:
+            if any(R.ident_data(T, i, natural) is None for i in R.expand(f)[1].values()):
+                return outcome(skip='species-without-defined-data')
+        da = {R.render(f): float(a) for f, a in case['a']}
+        db = {R.render(f): float(a) for f, a in case['b']}
+        why = substances_ok(M, list(da) + list(db), natural)
+        if why:
+            return outcome(skip='component formula rejected (C10 domain)')
+        A = M.Material(dict(da), natural=natural, norm_type=NORM)
+        given = dict(da)
+        if op == 'add':
+            classes.add('composite-from-addition')
+            B = M.Material(dict(db), natural=natural, norm_type=NORM)
+            C = A + B
+            for t, c in db.items():
+                given[t] = given.get(t, 0.0) + c
+            if set(da) & set(db):
+                classes.add('shared-component-accumulated')
+            shown = 'Material(%r) + Material(%r)' % (da, db)
+        elif op == 'rmul':
+            classes.add('composite-from-number-times-material')
+            C = case['k'] * A
+            given = {t: case['k'] * c for t, c in da.items()}
+            shown = '%r * Material(%r)' % (case['k'], da)
+        else:
+            classes.add('composite-from-add-method')
+            for t, c in db.items():
+                A.add(t, c)
+                given[t] = given.get(t, 0.0) + c
+            if set(da) & set(db):
+                classes.add('shared-component-accumulated')
+            C = A
+            shown = 'Material(%r).add(..%r)' % (da, db)
+        col, tag = 'fraction', 'material-result:'
+    obs = read_composite(C, col)
+    check_fractions(tag, given, norm, obs, devs, mon)
+    order, amt, mass, x, X, srow = obs
+    sample = dict(kind=case['kind'] + ' ' + op, natural=natural, norm=norm, expression=shown, accumulated_amounts=given,
+                  masses=mass, observed_x=x, observed_X=X, sum_row=srow)
+    if set(mass) == set(given):
+        ex, eX = expected_fractions([given[t] for t in given], [mass[t] for t in given], norm)
+        sample.update(expected_x=dict(zip(given, ex)), expected_X=dict(zip(given, eX)))
+    if devs:
+        sample['deviations'] = [d['mech'] for d in devs]
+    return outcome(classes=sorted(classes), nontrivial=len(given) >= 2, fp='arith|%s|%s|%s' % (natural, norm, shown), dev=devs,
+                   monitors=mon, sample=sample)
 
 
 def pinned(ctx):
